@@ -26,8 +26,10 @@ Line protocol for C11. The first line selects what is driven.
         | `fsym <t> <nt> <addr>` = `handle_for_native_symbol(thread nt, ..)`, then
           `handle_for_frame_with_address_and_symbol(thread t, .., native symbol, ..)`
         with `<addr>` = `ip|ra|ara <avma>` | `rip|rra|rara <v> <rel>` (the `RelativeAddressFrom*` variants)
+        | `pdump` = the profile's own tables, recovered from the derived `Debug` output of `Profile`
   out:  proc / thread → `h <index>` | `panic`;  mapping calls → `ok` | `panic`;  frame / fsym → as in `mode profile`, or
-        `frame orphan` for a thread whose `add_thread` call panicked (it exists but is never serialized)
+        `frame orphan` for a thread whose `add_thread` call panicked (it exists but is never serialized);
+        pdump → `tables k <start>:<end>:<rel>:<v>* p0 <..>* p1 <..>* ..` (kernel table, then every process's table, key order)
 
 Addresses must be below 2^64, relative addresses below 2^32, process numbers below 3 (`mode threads`: process and
 thread indices below 64), otherwise `bad-op`.
@@ -137,10 +139,19 @@ def parseTh (l : String) : Option TOp :=
     pure (.frameSym t nt fa)
   | _ => none
 
+inductive ThLine
+  | op (o : TOp)
+  | dump
+
+def parseThLine (l : String) : Option ThLine :=
+  match words l with
+  | ["pdump"] => some .dump
+  | _ => (parseTh l).map .op
+
 inductive Parsed
   | table (ls : List TLine)
   | profile (ls : List POp)
-  | threads (ls : List TOp)
+  | threads (ls : List ThLine)
 
 def parse (ls : List String) : Option Parsed :=
   match ls with
@@ -148,7 +159,7 @@ def parse (ls : List String) : Option Parsed :=
     match words h with
     | ["mode", "table"] => (rest.mapM parseT).map .table
     | ["mode", "profile"] => (rest.mapM parseP).map .profile
-    | ["mode", "threads"] => (rest.mapM parseTh).map .threads
+    | ["mode", "threads"] => (rest.mapM parseThLine).map .threads
     | _ => none
   | [] => none
 
@@ -219,11 +230,20 @@ def toutLine (orphan : Bool) (isFrame : Bool) : TOut → String
   | .handle n => s!"h {n}"
   | .res r => if orphan then "frame orphan" else resolvedLine r
 
-def modelThreads (ls : List TOp) : List String :=
-  let rec go (st : TState) (orphans : List Nat) (ls : List TOp) (acc : List String) : List String :=
+/-- `tables k <ents> p0 <ents> p1 <ents> ..` -/
+def tablesLine (kernel : List M) (procs : List (List M)) : String :=
+  let rec ptoks (i : Nat) (ps : List (List M)) : List String :=
+    match ps with
+    | [] => []
+    | mp :: r => (s!"p{i}" :: mp.map entTok) ++ ptoks (i + 1) r
+  " ".intercalate (("tables" :: "k" :: kernel.map entTok) ++ ptoks 0 procs)
+
+def modelThreads (ls : List ThLine) : List String :=
+  let rec go (st : TState) (orphans : List Nat) (ls : List ThLine) (acc : List String) : List String :=
     match ls with
     | [] => acc.reverse
-    | o :: r =>
+    | .dump :: r => go st orphans r (tablesLine st.kernel.map (st.procs.map (·.map)) :: acc)
+    | .op o :: r =>
       let (st', out) := tstep st o
       let orphans' := match o, out with
         | .newThread _, .panic => st.threads.length :: orphans
@@ -358,11 +378,26 @@ def judgeFrameX (hist : List TOp) (t : Nat) (fa : FrameAddrX) (o : String) : Opt
       if o = s!"frame lib {v} {rel - 1}" then none
       else some s!"'{o}' for relative return address {rel} in lib {v}: expected one byte earlier"
 
-def judgeThreads (ls : List TOp) (outs : List String) : Bool × String :=
-  let rec go (hist : List TOp) (ls : List TOp) (outs : List String) (k : Nat) : Bool × String :=
+def sortedLive (h : List Op) : List M := (liveSpec h).mergeSort (fun a b => a.s ≤ b.s)
+
+def disjointSorted (l : List M) : Bool := (l.zip (l.drop 1)).all (fun (a, b) => a.e ≤ b.s)
+
+def judgeThreads (ls : List ThLine) (outs : List String) : Bool × String :=
+  let rec go (hist : List TOp) (ls : List ThLine) (outs : List String) (k : Nat) : Bool × String :=
     match ls, outs with
     | [], [] => (true, "ok")
-    | op :: r, o :: os =>
+    | .dump :: r, o :: os =>
+      -- the profile's own tables: the kernel table and the table of every process handed out so far hold exactly the
+      -- live mappings of their history, ordered by start, pairwise disjoint
+      let mh := mappingOps hist
+      let kernel := sortedLive (kernelOps mh)
+      let procs := (List.range (procCount hist)).map (fun p => sortedLive (procOps p mh))
+      if o ≠ tablesLine kernel procs then
+        (false, s!"line {k}: the profile's tables are '{o}', live mappings of the history are '{tablesLine kernel procs}'")
+      else if !(disjointSorted kernel && procs.all disjointSorted) then
+        (false, s!"line {k}: stored mappings overlap: {o}")
+      else go hist r os (k + 1)
+    | .op op :: r, o :: os =>
       if !handlesOk hist op then
         (true, "ok (judged up to the first call with a handle that was never handed out, which is outside the statement)")
       else
